@@ -469,6 +469,14 @@ def _update_zo_file(
     )
     zo_path.write_text("\n".join(zlines))
 
-    _write_file_hash_to_disk(
-        _get_file_hash_path(zdir), _get_file_hash_map(zdir)
+    # Only refresh the hash of the file we just rewrote. Refreshing the hashes
+    # of ALL files here would hide edits made to files that have not been
+    # (re)indexed yet (e.g. after 'db reindex PATH').
+    file_hash_path = _get_file_hash_path(zdir)
+    file_to_hash: dict[str, str] = (
+        json.loads(file_hash_path.read_bytes())
+        if file_hash_path.exists()
+        else {}
     )
+    file_to_hash[c.strip_zdir(zdir, zo_path)] = _hash_file(zo_path)
+    _write_file_hash_to_disk(file_hash_path, file_to_hash)
